@@ -133,6 +133,19 @@ def familyQueryTimeRange (c : Calc) (base : Int) (q : TimeRange) : TimeRange :=
   { start := calcFamilyStartTime c base (calcFamily c q.start base)
     stop := calcFamilyStartTime c base (calcFamily c q.stop base) }
 
+/-- `intervalSegment.GetDataFamilies(q)` → `segment.GetDataFamilies` over the families that exist
+for the timestamps `ts` (one family per distinct `(segment, family)`; no segment expired):
+a segment is visited when its base time lies in `[CalcSegmentTime(q.start), q.stop]`, and inside it
+a family is returned when `familyQueryTimeRange` overlaps the family's range.
+Result: the start times of the returned families (unsorted, with repetitions). -/
+def getDataFamilies (c : Calc) (q : TimeRange) (ts : List Int) : List Int :=
+  let segQ : TimeRange := { start := calcSegmentTime c q.start, stop := q.stop }
+  let fq := segQ.intersect q
+  (ts.filter fun t =>
+      let base := calcSegmentTime c t
+      segQ.contains base && (familyQueryTimeRange c base fq).overlap (timeRangeOfTimestamp c t)).map
+    fun t => (timeRangeOfTimestamp c t).start
+
 /-- `Interval.CalcSlotRange(familyTime, timeRange)`; the `uint16(...)` conversions keep the low
 16 bits. `none` = division by zero. -/
 def calcSlotRange (i familyTime : Int) (q : TimeRange) : Option (Int × Int) :=
